@@ -61,11 +61,17 @@ def sinks_strategy(prog, classes=VALID, max_sinks=3, allow_repeat=True):
                 s["full_slices"] = True  # region given as all-slice(None) over an equal-shaped target
             elif cls == "region-aligned" and v.size > 0 and draw(st.integers(0, 3)) == 0:
                 s["shard_region"] = True  # the target is sharded; the region is aligned to its shards
+            if cls == "region-malformed":
+                if v.ndim < 1 or v.size == 0:
+                    s["cls"] = cls = "fresh"
+                else:
+                    s["how"] = draw(st.sampled_from(["short-tuple", "negative-start", "step"])) if v.ndim >= 2 else draw(st.sampled_from(["negative-start", "step"]))
             if cls == "existing-dtype" and (v.dtype.kind == "c" and v.dtype.itemsize == 16):
                 s["cls"] = cls = "existing-same"
             if cls == "existing-dtype":
                 # a narrower target (float -> int32, values truncated on write): the source itself must keep its own values
-                s["lossy"] = bool(v.dtype.kind == "f" and v.size > 0 and np.isfinite(v).all() and np.abs(v).max() < 2**30 and draw(st.booleans()))
+                # (only for sources whose values are exact: truncation is a discontinuous function of an inexact value)
+                s["lossy"] = bool(getattr(vals[node], "exact", False) and v.dtype.kind == "f" and v.size > 0 and np.isfinite(v).all() and np.abs(v).max() < 2**30 and draw(st.booleans()))
             if cls == "existing-larger":
                 # an existing target that is larger than the source along some axes, no region given
                 if v.ndim == 0 or v.size == 0:
@@ -198,7 +204,7 @@ def build_sinks(sinks, arrs, ctx: SinkCtx, spec, vals=None, compute=False, execu
                 # recorded known finding): the target is twice as long along axis 0, the region names its second half along axis 0 only
                 tshape = (shape[0] * 2,) + tuple(shape[1:])
                 region = [[shape[0], 2 * shape[0]]] + [[0, n] for n in shape[1:]]
-                cls = "region-malformed:short-tuple"
+                cls = "region-malformed:" + s.get("how", "short-tuple")
             if cls == "sharded":
                 shards = tuple(max(1, c * m) for c, m in zip(cs, s["mult"]))
                 inner = tuple(max(1, sh // 2) if (s.get("inner_div") and sh % 2 == 0) else sh for sh in shards)
@@ -275,7 +281,7 @@ def build_sinks(sinks, arrs, ctx: SinkCtx, spec, vals=None, compute=False, execu
                         expected = None
                 else:
                     expected = ref.astype(tdtype) if ref.shape == tshape else None
-            if cls in ("region-misaligned", "existing-smaller", "existing-larger-unaligned", "region-malformed:short-tuple"):
+            if cls in ("region-misaligned", "existing-smaller", "existing-larger-unaligned") or cls.startswith("region-malformed"):
                 expected = None  # must be rejected
         tgt = Target(sink=dict(s, cls=cls), store=ts, path=path, expected=expected, before=before, region=region, zarr_array=tgt_obj if not hasattr(tgt_obj, "state") else None)
         ctx.targets.append(tgt)
@@ -283,6 +289,11 @@ def build_sinks(sinks, arrs, ctx: SinkCtx, spec, vals=None, compute=False, execu
         if region is not None and not cls.startswith("existing-larger"):
             if cls == "region-malformed:short-tuple":
                 reg = (slice(region[0][0], region[0][1]),)
+            elif cls == "region-malformed:negative-start":
+                # the same rows named from the end of the axis
+                reg = (slice(-shape[0], None),) + tuple(slice(0, n) for n in shape[1:])
+            elif cls == "region-malformed:step":
+                reg = (slice(region[0][0], region[0][1], 2 if shape[0] > 1 else -1),) + tuple(slice(0, n) for n in shape[1:])
             elif s.get("full_slices"):
                 reg = tuple(slice(None) for _ in shape)
             else:
